@@ -138,8 +138,8 @@ def run_schedule(prefix, npart, rseed):
         for t in threads:
             t.join(5)
     finally:
-        prox.uninstall()
         ecmod.EtherXDP = old_xdp
+        prox.uninstall()
         lockmod.randrange = old_rr
         ecmod.randrange = old_err[0]
         shutil.rmtree(root, ignore_errors=True)
@@ -174,6 +174,10 @@ def judge(events, npart):
                                           f"install while {installing} was "
                                           f"installing")
             installing.add(pid)
+        elif op == "rmtree" and str(detail).endswith(".lock") \
+                and "/tmp" not in str(detail):
+            # a failing installer gives the lock directory up
+            installing.discard(pid)
         elif op == "attach":
             attached = True
         elif op == "pin":
